@@ -10,44 +10,58 @@
 (* LockScope = "whole"  is the code: the lock is held from Acquire to Release, the live buffer is written.                        *)
 (* LockScope = "copy"   is the tempting refactoring "do not hold the lock during slow disk I/O": copy under the lock, release,    *)
 (*                      write the copy, clear the live buffer -- kept as a switch for the necessity run (it loses blocks).       *)
+(* LockScope = "swap"   another tempting variant: under the lock only swap the buffer for an empty one, write what was swapped out   *)
+(*                      without the lock.  Nothing handed over meanwhile is cleared away -- but the two writers share ONE SQLite     *)
+(*                      connection: a second BEGIN while the first writer's transaction is open fails ("cannot start a transaction   *)
+(*                      within a transaction"), and what that writer had swapped out is gone.  The disk write is therefore two       *)
+(*                      actions, Begin and Commit, and txn says whose SQL transaction is open.                                       *)
 EXTENDS Naturals, Sequences, FiniteSets
 CONSTANTS Writers, Blocks, LockScope, MaxFlushes
-VARIABLES buffer, disk, lock, pc, copy, handed, nflush
-vars == << buffer, disk, lock, pc, copy, handed, nflush >>
+VARIABLES buffer, disk, lock, pc, copy, handed, nflush, txn, sqlerror
+vars == << buffer, disk, lock, pc, copy, handed, nflush, txn, sqlerror >>
 Range(s) == {s[i] : i \in 1..Len(s)}
 None == 0          \* writers are positive integers
 
 Init == /\ buffer = << >> /\ disk = {} /\ lock = None /\ pc = [w \in Writers |-> "idle"]
-        /\ copy = [w \in Writers |-> << >>] /\ handed = {} /\ nflush = 0
+        /\ copy = [w \in Writers |-> << >>] /\ handed = {} /\ nflush = 0 /\ txn = None /\ sqlerror = FALSE
 
 Add(w, b) == /\ pc[w] = "idle" /\ lock = None /\ b \notin handed        \* append under the lock: one step
              /\ buffer' = Append(buffer, b) /\ handed' = handed \cup {b}
-             /\ UNCHANGED << disk, lock, pc, copy, nflush >>
+             /\ UNCHANGED << disk, lock, pc, copy, nflush, txn, sqlerror >>
 
 Acquire(w) == /\ pc[w] = "idle" /\ lock = None /\ nflush < MaxFlushes
               /\ nflush' = nflush + 1
               /\ IF LockScope = "whole"
-                 THEN lock' = w /\ copy' = copy /\ pc' = [pc EXCEPT ![w] = "write"]
-                 ELSE lock' = None /\ copy' = [copy EXCEPT ![w] = buffer] /\ pc' = [pc EXCEPT ![w] = "write"]
-              /\ UNCHANGED << buffer, disk, handed >>
+                 THEN lock' = w /\ copy' = copy /\ buffer' = buffer
+                 ELSE IF LockScope = "copy" THEN lock' = None /\ copy' = [copy EXCEPT ![w] = buffer] /\ buffer' = buffer
+                 ELSE lock' = None /\ copy' = [copy EXCEPT ![w] = buffer] /\ buffer' = << >>
+              /\ pc' = [pc EXCEPT ![w] = "write"]
+              /\ UNCHANGED << disk, handed, txn, sqlerror >>
+(* the disk write: BEGIN ... COMMIT on the one shared connection *)
 Write(w) == /\ pc[w] = "write"
-            /\ disk' = disk \cup Range(IF LockScope = "whole" THEN buffer ELSE copy[w])
-            /\ pc' = [pc EXCEPT ![w] = "clear"]
-            /\ UNCHANGED << buffer, lock, copy, handed, nflush >>
+            /\ IF txn = None
+               THEN txn' = w /\ pc' = [pc EXCEPT ![w] = "commit"] /\ UNCHANGED sqlerror
+               ELSE sqlerror' = TRUE /\ pc' = [pc EXCEPT ![w] = "idle"] /\ UNCHANGED txn       \* the exception leaves the flush; a swapped-out copy is gone
+            /\ UNCHANGED << buffer, disk, lock, copy, handed, nflush >>
+Commit(w) == /\ pc[w] = "commit" /\ txn = w
+             /\ disk' = disk \cup Range(IF LockScope = "whole" THEN buffer ELSE copy[w])
+             /\ txn' = None /\ pc' = [pc EXCEPT ![w] = IF LockScope = "swap" THEN "idle" ELSE "clear"]
+             /\ UNCHANGED << buffer, lock, copy, handed, nflush, sqlerror >>
 Clear(w) == /\ pc[w] = "clear"
             /\ buffer' = << >>
             /\ pc' = [pc EXCEPT ![w] = "release"]
-            /\ UNCHANGED << disk, lock, copy, handed, nflush >>
+            /\ UNCHANGED << disk, lock, copy, handed, nflush, txn, sqlerror >>
 Release(w) == /\ pc[w] = "release"
               /\ lock' = None /\ pc' = [pc EXCEPT ![w] = "idle"]
-              /\ UNCHANGED << buffer, disk, copy, handed, nflush >>
+              /\ UNCHANGED << buffer, disk, copy, handed, nflush, txn, sqlerror >>
 
-Next == \E w \in Writers : (\E b \in Blocks : Add(w, b)) \/ Acquire(w) \/ Write(w) \/ Clear(w) \/ Release(w)
+Next == \E w \in Writers : (\E b \in Blocks : Add(w, b)) \/ Acquire(w) \/ Write(w) \/ Commit(w) \/ Clear(w) \/ Release(w)
 Spec == Init /\ [][Next]_vars
 
 (* C08, "whatever ... is written to the block store and flushed": a block handed to the store is in the buffer or on disk, always *)
 I_NoBlockLost == handed \subseteq (Range(buffer) \cup disk)
 (* and once no flush is in progress and the buffer is empty, everything handed over is on disk *)
 I_FlushedMeansStored == ((\A w \in Writers : pc[w] = "idle") /\ buffer = << >>) => handed \subseteq disk
-I_LockDiscipline == \A w \in Writers : pc[w] \in {"write", "clear", "release"} /\ LockScope = "whole" => lock = w
+I_LockDiscipline == \A w \in Writers : pc[w] \in {"write", "commit", "clear", "release"} /\ LockScope = "whole" => lock = w
+I_NoSqlError == ~sqlerror
 =============================================================================
